@@ -298,11 +298,16 @@ func c10Gen(tier string, rng *rand.Rand, emit func(Case)) {
 	}
 	// packet level: all header values incl. length < 8 (c14.go)
 	rdrawGen(tier, rng, emit)
+	// value level: every data type with every data length 0..255 (c10values.go)
+	c10ValueGen(tier, rng, emit)
 }
 
 func c10Impl(line string) string {
 	if strings.HasPrefix(line, "rdraw ") {
 		return rdrawImpl(line)
+	}
+	if strings.HasPrefix(line, "val ") {
+		return valuesImpl(line)
 	}
 	return pkgImpl(line)
 }
@@ -348,7 +353,7 @@ func init() {
 			return clause
 		},
 		Nontrivial: pkgNontrivial, NoShrink: true, Timeout: 30 * time.Second,
-		Rule: "every valid encoding produced by the registry generators (real WriteTo and the independent encoders) × every proper prefix of it (all prefixes up to 400 bytes, first/last 64 and 60 random cuts beyond), decoded by the real ReadFrom on a bounded queue and by the Lean decoder: must be not-enough-bytes; then the complete bytes. Non-trivial = well-formed case",
+		Rule: "every valid encoding produced by the registry generators (real WriteTo and the independent encoders) × every proper prefix of it (all prefixes up to 400 bytes, first/last 64 and 60 random cuts beyond), decoded by the real ReadFrom on a bounded queue and by the Lean decoder: must be not-enough-bytes; then the complete bytes. value level: GoValue on every data type byte 0..255 with every data length 0..255 (zero, 0xff and random data) vs the Lean value model. Non-trivial = well-formed case",
 		Assumptions: []string{"a fresh package object per attempt, as tryParsePackage does (LookupPackage inside the retry loop)"},
 	})
 	register(&Prop{
@@ -361,7 +366,7 @@ func init() {
 			return clause
 		},
 		Nontrivial: pkgNontrivial, NoShrink: true, Timeout: 30 * time.Second,
-		Rule: "valid encodings of every package kind with every byte (sampled on long ones) replaced by 00/01/7f/80/fe/ff, random multi-byte mutations with truncation and trailing garbage, and arbitrary bytes after each of the 256 token values; real ReadFrom under recover vs the Lean decoder (outcome class and fields must agree); packet level: the reader loop (Packet.ReadFrom per iteration) on streams of 1..3 packets with every announced length 0..16, every header type/status value, random header fields, truncations and read schedules vs the Lean reader model. Non-trivial = well-formed case",
+		Rule: "valid encodings of every package kind with every byte (sampled on long ones) replaced by 00/01/7f/80/fe/ff, random multi-byte mutations with truncation and trailing garbage, and arbitrary bytes after each of the 256 token values; real ReadFrom under recover vs the Lean decoder (outcome class and fields must agree); packet level: the reader loop (Packet.ReadFrom per iteration) on streams of 1..3 packets with every announced length 0..16, every header type/status value, random header fields, truncations and read schedules vs the Lean reader model. value level: GoValue on every data type byte 0..255 with every data length 0..255 (zero, 0xff and random data) vs the Lean value model. Non-trivial = well-formed case",
 		Assumptions: []string{"allocation is bounded by the received bytes since PacketQueue.Bytes checks availability first (fix 31957a3); peak heap is not measured per case"},
 	})
 }
